@@ -152,6 +152,7 @@ modelled! {
         let ast = asm::AstTopLevel { nodes: vec![
             asm::AstAny::DirectiveAddr(asm::AstDirectiveAddr { header_span: sp(), expr: lit(), item_ref: Some(util::ItemRef::new(0)) }),
             asm::AstAny::DirectiveData(asm::AstDirectiveData { header_span: sp(), elem_size: None, elems: vec![lit()], item_refs: vec![util::ItemRef::new(0)] }),
+            asm::AstAny::DirectiveAssert(asm::AstDirectiveAssert { header_span: sp(), condition_expr: lit() }),
         ] };
         let mut it = asm::ResolveIterator::new(&ast, &defs, false, false);
         let c1 = it.next(&mut report, &decls, &defs);
@@ -166,7 +167,12 @@ modelled! {
         std::mem::forget(c2);
         let before = msgs(&report);
         let c3 = it.next(&mut report, &decls, &defs);
-        assert!(matches!(c3, Ok(None)) || (c3.is_err() && msgs(&report) > before), "position overflow neither exact nor diagnosed");
+        // the third step delivers the #assert node: its position is exactly the data element's end, or the overflow is diagnosed
+        let p3 = match &c3 { Ok(Some(ctx)) => Some(ctx.bank_data.cur_position), _ => None };
+        assert!(p3.is_some() || (c3.is_err() && msgs(&report) > before), "position overflow neither exact nor diagnosed");
+        if let (Some(p), Some(q)) = (pos_after_addr, p3) {
+            assert!(q as u128 == p as u128 + dsize as u128, "position after the item is not position + size (clamped or wrapped)");
+        }
         kani::cover!(c3.is_err(), "position + size beyond the machine word diagnosed");
         std::mem::forget(c3);
         kani::cover!(a > (1u64 << 62), "address whose bit position exceeds the machine word");
